@@ -878,6 +878,8 @@ class Interp:
                 items = [self.ref({'__cls__': None, '__open__': True, 'first': k_, 'second': v}) for k_, v in list(seq.items()) if k_ != '__map__']
             elif isinstance(seq, list):
                 items = list(seq)
+            elif hasattr(seq, 'iter_values'):
+                items = list(seq.iter_values())       # a value type of a harness that knows how to be walked (a JSON array)
             else:
                 raise AnalysisBroken('%s: range-for over something the replay does not hold as a sequence (%s)' % (f.short, f.loc(st['i'])))
             for it_ in items:
